@@ -349,7 +349,7 @@ def mode_build():
                 st["dy_in"] = [[v.numerator, v.denominator] for v in vals]
                 fr = Fr(float(r)); st["dy_out"] = [fr.numerator, fr.denominator]
                 st["nres"] = nres
-                if case["exact"]:
+                if case["exact"] and len(tapes) <= req.get("maxtapes", 10 ** 9) and len(circ_cache) < req.get("maxcirc", 10 ** 9):
                     st["tapes"] = [tape_desc(t, circ_cache) for t in tapes]
                 case["t"].append(st)
         except NotExtractable as e:
